@@ -472,9 +472,19 @@ func runRetry(sc rscen, driverTimeout time.Duration) (answer string, spurious bo
 func execRetry(op string) string {
 	sc := parseRScen(op)
 	timeouts := []time.Duration{80 * time.Millisecond, 250 * time.Millisecond, time.Second, 3 * time.Second, 8 * time.Second}
+	// as in execSess: an answer ending in a driver timeout is confirmed with the next larger timer
+	prev := ""
 	for try := 0; ; try++ {
 		a, spurious := runRetry(sc, timeouts[try])
-		if !spurious || try == len(timeouts)-1 {
+		last := try == len(timeouts)-1
+		if !spurious {
+			if !strings.Contains(a, "err=timeout") || a == prev || last {
+				return a
+			}
+			prev = a
+			continue
+		}
+		if last {
 			return a
 		}
 		spuriousRetryReruns.add()
